@@ -98,12 +98,12 @@ func checkC15(c *Ctx, r *Report) {
 			}
 			// and the entry reported is that very candidate
 			for _, cl := range callsIn(fi.SSA, false, nameIs(ac)) {
-				args := cl.Common().Args
-				if len(args) < 5 {
-					viol = "addConflict arity changed"
+				args := argsTyped(cl, "*core/validators/paths.RouteEntry")
+				if len(args) != 2 {
+					viol = "addConflict is no longer given two entries"
 					continue
 				}
-				ea, eb := sliceOf(args[2]), sliceOf(args[3])
+				ea, eb := sliceOf(args[0]), sliceOf(args[1])
 				okA := false
 				for p := range ea.Params {
 					if paramTyped(p, "*core/validators/paths.RouteEntry") {
@@ -236,7 +236,12 @@ func checkC15(c *Ctx, r *Report) {
 		for _, cl := range callsIn(fi.SSA, false, nameIs(ac)) {
 			n++
 			sites = append(sites, w.pos(cl.Pos()))
-			ex := cl.Common().Args[3]
+			entries := argsTyped(cl, "*core/validators/paths.RouteEntry")
+			if len(entries) != 2 {
+				viol = fmt.Sprintf("%s: addConflict is no longer given two entries", w.pos(cl.Pos()))
+				continue
+			}
+			ex := entries[1]
 			if u, ok := ex.(*ssa.UnOp); ok && u.Op == token.MUL {
 				ex = u.X
 			}
@@ -274,7 +279,12 @@ func checkC15(c *Ctx, r *Report) {
 		for _, cl := range callsIn(fi.SSA, false, func(n string) bool { return strings.HasPrefix(n, pkgPaths+".report") }) {
 			nrep++
 			s2 = append(s2, w.pos(cl.Pos()))
-			a := sliceOf(cl.Common().Args[4])
+			segs := argsTyped(cl, "[]string")
+			if len(segs) != 1 {
+				v2 = fmt.Sprintf("%s: the report function is no longer given one segment list", w.pos(cl.Pos()))
+				continue
+			}
+			a := sliceOf(segs[0])
 			if !a.Calls[pkgPaths+".splitSegments"] || !a.Calls[pkgPaths+".normalizePath"] || !a.hasFieldNamed("Path") {
 				v2 = fmt.Sprintf("%s: the segments handed to the report function are not splitSegments(normalizePath(entry.Path))", w.pos(cl.Pos()))
 			}
@@ -904,4 +914,16 @@ func checkEndpointKeysAgree(c *Ctx, r *Report, clause string) {
 		viol = fmt.Sprintf("expected the registration, the duplicate test and the collecting walk to access trieNode.endpoint, found %d accesses", len(all))
 	}
 	r.add(clause, "sibling", "trie-endpoint-keys", "all accesses to a trie node's endpoint table key it the same way", []string{"core/validators/paths.trieNode.endpoint"}, sites, viol)
+}
+
+// argsTyped: the operands of a call whose type is the given one, in order (a rule about "the
+// entry handed over" means the operand of that type, wherever a refactoring moved it).
+func argsTyped(cl ssa.CallInstruction, typ string) []ssa.Value {
+	var out []ssa.Value
+	for _, a := range cl.Common().Args {
+		if short(types.TypeString(a.Type(), nil)) == typ {
+			out = append(out, a)
+		}
+	}
+	return out
 }
